@@ -117,6 +117,10 @@ EXOTIC = [
     ' 1 0', '- 1 0', '1 0 c x',
     # characters with a meaning for str.format / % / regular expressions / shells
     '{} 0', '1 {0} 0', 'x_{1} 0', '{x1, x2}', '1 %s 0', '%d 0', '1 $2 0', '1 \\2 0', '[1] 0', '1 * 0',
+    # comment lines holding characters that str.splitlines (but not the DIMACS
+    # format, whose lines end at a newline) takes for line ends, followed by
+    # text that looks like DIMACS
+    'c a\x0c-1 0', 'c b\x1c1 0', 'c d\x852 0', 'c e\u2028-2 0', 'c\x0bp cnf 2 2', 'c f\u2029x 0',
 ]
 
 TOKENS = ['0', '1', '-1', '2', '-2', '3', '-3', '9', '-9', 'p', 'cnf', 'c', 'x', '1.5', '-',
@@ -594,6 +598,16 @@ def read_text(text, rmode, tmp, path=None):
                     f.write(text)
                     f.seek(0)
                     F = CNF.from_file(f)
+        elif rmode == 'tty':
+            # a stream that says it is a terminal (typed input)
+            F = CNF.from_file(_TtyLike(text))
+        elif rmode == 'stdin-tty':
+            old = sys.stdin
+            sys.stdin = _TtyLike(text)
+            try:
+                F = CNF.from_file()
+            finally:
+                sys.stdin = old
         elif rmode == 'stdin':
             old = sys.stdin
             sys.stdin = io.StringIO(text)
@@ -608,6 +622,11 @@ def read_text(text, rmode, tmp, path=None):
     except Exception as e:
         return ('exception', type(e).__name__, str(e)[:100]), delivered
     return formula_outcome(F), delivered
+
+
+class _TtyLike(io.StringIO):
+    def isatty(self):
+        return True
 
 
 def formula_outcome(F):
@@ -1021,6 +1040,8 @@ def shards(tier, seed):
     for i, chunk in enumerate(scope.stripe(list(range(len(EXOTIC))), 4)):
         out.append(('exotic%d' % i, 'run_exotic', {'first': chunk}))
     out.append(('modes', 'run_modes', {}))
+    out.append(('tty0', 'run_tty', {'modes': ['tty']}))
+    out.append(('tty1', 'run_tty', {'modes': ['stdin-tty']}))
     # (b2) faults
     recs = small_formulas()
     for i, chunk in enumerate(scope.stripe(recs, 8)):
@@ -1112,6 +1133,23 @@ def run_exotic(args, R):
                 for rest in itertools.product(EXOTIC, repeat=k):
                     _read_case(R, rep, tmp, '\n'.join((EXOTIC[i],) + rest) + '\n',
                                sample_every=5003)
+    finally:
+        tmp.close()
+
+
+def run_tty(args, R):
+    """Typed input: the stream answers isatty() = True.  Every text made of a
+    problem line and <= 3 body lines (so also every text that goes wrong only
+    after the announced number of clauses)."""
+    preload()
+    tmp, rep = Tmp(), Reporter(R)
+    try:
+        for mode in args['modes']:
+            for first in DEEP_FIRST:
+                for k in range(0, 4):
+                    for rest in itertools.product(DEEP_BODY, repeat=k):
+                        _read_case(R, rep, tmp, '\n'.join((first,) + rest) + '\n', mode=mode,
+                                   sample_every=4001)
     finally:
         tmp.close()
 
